@@ -20,7 +20,9 @@ RULE = (
     "returned value must be the integer of the binding the model designates; model Unbound/Cycle must raise ResolutionError (bounded by a 10 s guard); an "
     "explicit ResolutionError where the model resolves is allowed and counted. History part: several documents with disjoint integer ranges are created, "
     "resolved, edited and dropped in random order with gc.collect() in between; a value must come from the document's own range, unattached identifiers "
-    "must raise, and the context registry must not keep dead entries. Non-trivial = the name is bound at >=2 levels, or reached through inherit/with/a chain >=2."
+    "must raise, and the context registry must not keep dead entries. Alias-body part: documents whose body is a *name* (or `mk name`) bound to set literals by 1-4 "
+    "let / with wrappers (with aliases, cycles and shadowing), read through source[\"k\"] twice: the value must be the one Nix designates, or an explicit failure, and "
+    "the second access must agree with the first. Non-trivial = the name is bound at >=2 levels, or reached through inherit/with/a chain >=2."
 )
 ASSUMPTIONS = ["references to a sibling of a non-rec set and other situations the statement leaves undefined are not generated", "function-parameter resolution is reached through the internal wiring the repository's own tests use"]
 
@@ -209,7 +211,100 @@ def history_check(r, sh, kw):
     return fails
 
 
+ALIAS_NAMES = ["t", "u"]
+
+
+def alias_case(r):
+    """A document whose body is a *name* (or a call on a name) that the wrappers bind to a set literal:
+    `with { t = { k = 1; }; }; let u = t; in with { t = { k = 2; }; }; t` — reached through source["k"]."""
+    g = S.Gen(r.randrange(2**40))
+    wrappers = []
+    for _ in range(r.choice([1, 2, 2, 3, 3, 4])):
+        kind = "with" if r.random() < 0.5 else "let"
+        bs = []
+        for nm in r.sample(ALIAS_NAMES + ["z"], r.randint(1, 2)):
+            if nm == "z":
+                bs.append(g.mk("z", "int", g.fresh()))
+            elif kind == "let" and r.random() < 0.3:
+                bs.append(g.mk(nm, "ref", [x for x in ALIAS_NAMES if x != nm][0]))
+            else:
+                bs.append(g.mk(nm, "set", S.SetLit([g.mk("k", "int", g.fresh())])))
+        wrappers.append(S.Frame(kind, bs))
+    body = r.choice(ALIAS_NAMES)
+    call = r.random() < 0.25
+    out = []
+    for w in wrappers:
+        if w.kind == "let":
+            out.append("let")
+            S._print_bindings(w.bindings, 2, out)
+            out.append("in")
+        else:
+            out.append("with {")
+            S._print_bindings(w.bindings, 2, out)
+            out.append("};")
+    out.append(("mk " if call else "") + body)
+    return {"kind": "alias", "wrappers": wrappers, "body": body, "call": call, "text": "\n".join(out) + "\n"}
+
+
+def judge_alias(case):
+    nima.reset_state()
+    d = S.ScopeDoc(case["wrappers"], S.Frame("set", []))
+    res = S.Resolver(d)
+    try:
+        val, _b = res.lookup(case["body"], case["wrappers"])
+        exp = ("value", val.bindings[0].value) if isinstance(val, S.SetLit) else ("other",)
+    except S.Unbound:
+        exp = ("unbound",)
+    except S.Cycle:
+        exp = ("cycle",)
+    kinds = [w.kind for w in case["wrappers"]]
+    nwith = sum(1 for w in case["wrappers"] if w.kind == "with" and any(b.name == case["body"] for b in w.bindings))
+    nlex = sum(1 for w in case["wrappers"] if w.kind == "let" and any(b.name == case["body"] for b in w.bindings))
+    cls = f"alias|with{min(nwith, 2)}|let{min(nlex, 2)}|{'call' if case['call'] else 'name'}|exp:{exp[0]}"
+    case["expected"] = list(exp)
+    case["cls"] = cls
+    return judge_alias_text(case)
+
+
+def judge_alias_text(case):
+    """case: text, expected ('value', n) | ('unbound',) | ('cycle',) | ('other',), cls"""
+    nima.reset_state()
+    exp, cls = tuple(case["expected"]), case["cls"]
+    fails = []
+    got = None
+    for attempt in (1, 2):
+        try:
+            with guard.time_limit(10):
+                src = nima.parse(case["text"]) if attempt == 1 else src
+                node = src["k"]
+                v = getattr(node, "value", None)
+                g1 = ("value", v) if isinstance(v, int) and not isinstance(v, bool) else ("value-other", type(node).__name__)
+        except (nima.ResolutionError, KeyError, ValueError) as e:
+            g1 = ("explicit-failure", type(e).__name__)
+        except guard.EvalTimeout:
+            g1 = ("timeout", "")
+        except Exception as e:  # noqa: BLE001
+            g1 = ("exc", f"{type(e).__name__}@{innermost_frame(e)}")
+        dd = {"text": case["text"], "expected": list(exp), "got": list(g1), "access": attempt}
+        if g1[0] == "exc":
+            fails.append((f"internal-error:{g1[1]}|{cls}", dd))
+        elif g1[0] == "timeout":
+            fails.append((f"unbounded-resolution|{cls}", dd))
+        elif g1[0] == "value" and exp[0] == "value" and g1[1] != exp[1]:
+            fails.append((f"wrong-binding|{cls}", dd))
+        elif g1[0] == "value" and exp[0] in ("unbound", "cycle"):
+            fails.append((f"resolved-{exp[0]}-name|{cls}", dd))
+        if got is not None and got != g1:
+            fails.append((f"second-access-differs|{cls}", dd | {"first": list(got)}))
+        got = g1
+        if fails:
+            break
+    return fails, cls + "|got:" + got[0]
+
+
 def replay(case):
+    if case.get("kind") == "alias":
+        return judge_alias_text(case)[0]
     if "raw" in case:
         nima.reset_state()
         src = nima.parse(case["raw"]["text"])
@@ -258,6 +353,18 @@ def run_shard(sh):
             sh.record(case, True, ["history"])
             for k, d in fails:
                 sh.fail(k, case, d)
+            return
+        if n % 10 in (1, 2):
+            c = alias_case(random.Random(n))
+            fails, cls = judge_alias(c)
+            case = {"kind": "alias", "seed": n, "text": c["text"], "expected": c["expected"], "cls": c["cls"]}
+            parts = cls.split("|")
+            sh.record(case, parts[-1] == "got:value" and (parts[1] != "with0") + (parts[2] != "let0") >= 1, ["alias-body"] + parts[1:])
+            seen = set()
+            for k, dd in fails:
+                if k not in seen:
+                    seen.add(k)
+                    sh.fail(k, case, dd)
             return
         g = S.Gen(n, **kw)
         d = g.doc()
